@@ -154,13 +154,20 @@ def write_vcf(
         file=f,
     )
     for m in sorted(all_mutations):
-        ref = m.op[0]  # TODO: should be genome nucleotide, not the RefSeq nucleotide?!
-        if m.op[1] == ">":
-            alt = m.op[2]
-        elif m.op[:3] == "ins":
+        # Spell the variant against the (genome-oriented) reference
+        pos = m.pos
+        if ">" in m.op:  # substitution of one or more bases ("." keeps the base)
+            l, r = m.op.split(">")
+            ref = gene[pos : pos + len(l)]
+            alt = "".join(ref[i] if b == "." else b for i, b in enumerate(r))
+        elif m.op[:3] == "ins":  # inserted after the base at `pos`
+            ref = gene[pos : pos + 1]
             alt = ref + m.op[3:]
-        else:
-            ref, alt = ".", f"{m.op[3:]}, ."  # TODO: this is wrong?!
+        else:  # deletion (or delXinsY), anchored at the preceding base
+            deleted, _, inserted = m.op[3:].partition("ins")
+            pos -= 1
+            ref = gene[pos : pos + 1 + len(deleted)]
+            alt = ref[0] + inserted
 
         fm = gene.get_functional(m)
         fm = fm.replace(" ", "_").replace("\t", "_").replace(";", "_") if fm else "none"
@@ -196,7 +203,7 @@ def write_vcf(
         print(
             pattern.format(
                 chrom=gene.chr,
-                pos=m.pos + 1,
+                pos=pos + 1,
                 id=gene.get_rsid(m, default=False),
                 ref=ref,
                 alt=alt,
